@@ -992,11 +992,14 @@ def exhaustive_cases():
 def plan(tier):
     if tier == 'quick':
         return [{'n': 25, 'part': i} for i in range(16)]
-    return [{'n': 4000, 'part': i, 'exhaustive': True} for i in range(16)]
+    return [{'n': 3000, 'part': i, 'exhaustive': True} for i in range(16)]
 
 
 def run_shard(ctx, spec):
-    ctx.extra['table_rows'] = len(AR.ROWS) if spec['part'] == 0 else 0
+    if spec['part'] == 0:
+        ctx.extra['table_rows'] = len(AR.ROWS)
+        ctx.extra['table_provenance'] = dict(('rows citing ' + k, v) for k, v in AR.provenance_summary().items())
+        ctx.extra['table_verdicts'] = dict(collections.Counter(r['verdict'] for r in AR.ROWS))
     if spec.get('exhaustive'):
         cases = exhaustive_cases()
         mine = cases[spec['part']::16]
